@@ -27,6 +27,8 @@ var casterFns = map[string]func(interface{}) (interface{}, error){
 }
 
 var intCasters = []string{"ToInt", "ToInt64", "ToInt32", "ToInt16", "ToInt8", "ToUint", "ToUint64", "ToUint32", "ToUint16", "ToUint8"}
+// the dispatcher cast.To(sample of the integer type, v) must behave as the caster it selects
+var intCallees = append(append([]string{}, intCasters...), "To:int", "To:i64", "To:i32", "To:i16", "To:i8", "To:uint", "To:u64", "To:u32", "To:u16", "To:u8")
 var intTyOfCaster = map[string]string{"ToInt": "int", "ToInt64": "i64", "ToInt32": "i32", "ToInt16": "i16", "ToInt8": "i8",
 	"ToUint": "uint", "ToUint64": "u64", "ToUint32": "u32", "ToUint16": "u16", "ToUint8": "u8"}
 var allCasters = []string{"ToInt", "ToInt64", "ToInt32", "ToInt16", "ToInt8", "ToUint", "ToUint64", "ToUint32", "ToUint16", "ToUint8",
@@ -385,7 +387,7 @@ func genC09(cw *caseWriter, seed uint64, tier string) {
 			srcs = append(srcs, "+"+dec)
 		}
 		for _, s := range srcs {
-			for _, c := range intCasters {
+			for _, c := range intCallees {
 				emitCast(cw, "C09", c, s, true)
 			}
 		}
@@ -393,23 +395,23 @@ func genC09(cw *caseWriter, seed uint64, tier string) {
 	// text one past the 64-bit bounds and far beyond
 	for _, s := range []string{"18446744073709551616", "-9223372036854775809", "99999999999999999999999999", "-99999999999999999999999999",
 		"", "-", "+", "abc", "1.0", "1e3", " 1", "1 ", "0x10", "010", "1_000", "0b11", "0o17", "08", "_1", "1__0", "-0", "+0", "00", "0x", "١٢"} {
-		for _, c := range intCasters {
+		for _, c := range intCallees {
 			emitCast(cw, "C09", c, s, true)
 			emitCast(cw, "C09", c, json.Number(s), true)
 		}
 	}
 	for _, f := range boundaryFloats64() {
-		for _, c := range intCasters {
+		for _, c := range intCallees {
 			emitCast(cw, "C09", c, f, true)
 		}
 	}
 	for _, f := range boundaryFloats32() {
-		for _, c := range intCasters {
+		for _, c := range intCallees {
 			emitCast(cw, "C09", c, f, true)
 		}
 	}
 	for _, b := range []bool{true, false} {
-		for _, c := range intCasters {
+		for _, c := range intCallees {
 			emitCast(cw, "C09", c, b, true)
 		}
 	}
@@ -490,6 +492,14 @@ func genC10(cw *caseWriter, seed uint64, tier string) {
 	for _, src := range c10Sources() {
 		for _, c := range callees {
 			emitCast(cw, "C10", c, src, true)
+		}
+	}
+	// row level: 9 formats x (18 raw types + none) x the values a column may be asked to import
+	for _, f := range []string{"string", "numeric", "boolean", "binary", "date", "datetime", "timestamp", "auto", "hidden"} {
+		for _, ty := range append([]string{"none"}, tyNames...) {
+			for _, v := range impValues() {
+				emitImp(cw, f, ty, v)
+			}
 		}
 	}
 	cw.extra["exhaustive"] = false
